@@ -22,6 +22,7 @@ func init() {
 			c.EntryAlignment("C02", s, "prop")
 			c.StateStoreDiscipline("C02", s, "prop")
 			c.RulerLocking("C02")
+			c.LockerInternals("C15") // holding the key's lock means holding it: Lock returns only with the key's one mutex acquired
 			c.SignIffApproved("C02", map[string]bool{"SignBeaconProposal": true})
 			c.RulerKeyAgreement("C02")
 			c.RulerPositions("C02")
